@@ -409,6 +409,10 @@ def check_calculate_all(ctx: Ctx):
 
 
 def check(ctx: Ctx):
+    # "instances on both sides without a match": tp must really be 0 then (decision step, R02.1)
+    from . import c02
+
+    c02.check_evaluate(ctx)
     check_init_and_call(ctx)
     check_dispatch(ctx)
     check_result_constructor(ctx)
